@@ -37,7 +37,7 @@ int main(int argc, char **argv)
         if (big && rng_chance(&r, 1, 4)) {           /* a 1..4 KiB byte string or a 300-digit double inside an array */
             bb_t y = {0}; bb_byte(&y, (uint8_t) (root == 'O' ? 0x40 : 0x42));
             if (root == 'O') { uint8_t nm = 'k'; enc_blob(&y, 0x14, &nm, 1); }
-            if (rng_chance(&r, 1, 2)) { size_t l = 1000 + rng_below(&r, 3100); uint8_t *p = (uint8_t *) malloc(l); rnd_bytes(&r, p, l, false); enc_blob(&y, 0x18, p, l); free(p); }
+            if (rng_chance(&r, 1, 2)) { size_t l = 1000 + rng_below(&r, 3100); if (rng_chance(&r, 1, 6)) l = 65534 + rng_below(&r, 5);   /* 16-bit counters */ uint8_t *p = (uint8_t *) malloc(l); rnd_bytes(&r, p, l, false); enc_blob(&y, 0x18, p, l); free(p); }
             else { uint64_t dv = rng_chance(&r, 1, 2) ? 0x7FE1CCF385EBC8A0ULL : 0xFFEFFFFFFFFFFFFFULL; bb_byte(&y, 0x46); for (int i = 0; i < 8; i++) { bb_byte(&y, (uint8_t) (dv & 0xFF)); dv >>= 8; } }
             bb_byte(&y, (uint8_t) (root == 'O' ? 0x41 : 0x43)); x.n = 0; bb_put(&x, y.b, y.n); free(y.b);
         }
@@ -54,12 +54,13 @@ int main(int argc, char **argv)
             fprintf(f, "%s[", nf++ ? "," : ""); jbytes(f, doc + i + 1, 8); fputc(',', f); jbytes(f, (const uint8_t *) txt, (size_t) n); fputc(']', f);
         }
         fprintf(f, "]");
+        rec_watchdog(60);
         size_t need = 55; bool r0 = binson_parser_to_string(p, NULL, &need, true);
         /* capacities: NULL, 0, around need, around cuts */
         long caps[40]; int nc = 0; caps[nc++] = -1; caps[nc++] = 0;
         for (long dd = -3; dd <= 2; dd++) if ((long) need + dd >= 0) caps[nc++] = (long) need + dd;
         if (need <= 300) { for (long c = 1; c < (long) need && nc < 38; c += 1 + (long) rng_below(&r, 3)) caps[nc++] = c; }
-        else for (int k = 0; k < 14; k++) caps[nc++] = (long) rng_below(&r, (uint32_t) need);
+        else for (int k = 0; k < (need > 20000 ? 3 : 14); k++) caps[nc++] = (long) rng_below(&r, (uint32_t) need);
         fprintf(f, ",\"r0\":%d,\"need\":%zu,\"runs\":[", r0 ? 1 : 0, need);
         for (int k = 0; k < nc; k++) {
             long cap = caps[k]; char *dst[2] = {NULL, NULL}; size_t sz[2]; bool rt[2];
@@ -80,6 +81,7 @@ int main(int argc, char **argv)
         bool pr = binson_parser_print(p);
         fflush(stdout); dup2(saved, 1); close(saved);
         off_t n = lseek(fd, 0, SEEK_END); uint8_t *pb = (uint8_t *) malloc((size_t) n + 1); lseek(fd, 0, SEEK_SET); ssize_t got = read(fd, pb, (size_t) n); (void) got; close(fd);
+        alarm(0);
         fprintf(f, "],\"pret\":%d,\"print\":", pr ? 1 : 0); jbytes(f, pb, (size_t) n); fprintf(f, "}\n");
         free(pb); free(doc); free(st); free(p);
     }
